@@ -26,6 +26,8 @@ PRECS = (0, 1, 2)     # precedence 0 is a declared precedence like any other
 def _norm_keep(t, n):
     if t.get("shared"):
         n["shared"] = t["shared"]
+    if t.get("tagged"):
+        n["tagged"] = True
     return n
 
 
@@ -86,6 +88,10 @@ def tables():
                 pr = {"p": pre["a"], "P": pre["b"]} if isinstance(pre, dict) else pre
                 po = {"q": post["a"], "Q": post["b"]} if isinstance(post, dict) else post
                 add(norm_table({"infix": {n: (p, a) for n, p, a in inf}, "prefix": pr, "postfix": po}))
+    # E: small tables again with a node tag on every pair
+    for t in list(out):
+        if len(t["prefix"]) + len(t["postfix"]) + len(t["infix"]) <= 2:
+            out.append(dict(t, tagged=True))
     # D: the same tables again with one rule name shared between two tables, where the table has both kinds
     for t in list(out):
         for mode, need in (("prefix=infix", ("p", "i")), ("prefix=postfix", ("p", "q")), ("both", ("p", "i", "P", "q"))):
@@ -277,7 +283,9 @@ def run_impl(table, toks, reuse: bool = True):
 
     text = "".join(toks)
     names = dict(NAMES, **SHARED[table.get("shared", "none")])
-    pairs = [Pair(text, k, k + 1, RuleFrame(names[t], 0)) for k, t in enumerate(toks)]
+    # variant "tagged": every pair carries a node tag (as #t = op in a grammar would give it); tags must not matter to the parser
+    tag = "t" if table.get("tagged") else None
+    pairs = [Pair(text, k, k + 1, RuleFrame(names[t], 0), tag=tag) for k, t in enumerate(toks)]
     revp = {names[t]: t for t in table["prefix"]}
     revq = {names[t]: t for t in table["postfix"]}
     revi = {names[t]: t for t in table["infix"]}
@@ -289,7 +297,7 @@ def run_impl(table, toks, reuse: bool = True):
         INFIX_OPS = {names[n]: (p, PrattParser.RIGHT_ASSOC if a == "R" else PrattParser.LEFT_ASSOC) for n, (p, a) in table["infix"].items()}
 
         def parse_primary(self, pair):
-            return "x"
+            return 0          # a node that is falsy (an evaluating parser returns numbers): "no node" must be tested with `is None`
 
         def parse_prefix(self, op, rhs):
             return (revp[op.name], rhs)
@@ -309,9 +317,18 @@ def run_impl(table, toks, reuse: bool = True):
         parser = _INSTANCES[key]
     else:
         parser = T()
-    tree = parser.parse_expr(stream)
+    tree = _x(parser.parse_expr(stream))
     consumed = stream.pos
     return tree, consumed
+
+
+def _x(t):
+    """The implementation's tree with the falsy primary node 0 written as "x" (the oracles' notation)."""
+    if t == 0 and not isinstance(t, tuple):
+        return "x"
+    if isinstance(t, tuple):
+        return tuple(_x(c) if i else c for i, c in enumerate(t))
+    return t
 
 
 def show(t):
@@ -405,7 +422,7 @@ def run(tier: str) -> int:
         "distinct_nontrivial": agg["nontrivial"],
         "rule": "every operator table of three families - A: 0-2 infix operators (precedence 0-2 with repetition, left/right), an optional prefix and an optional postfix operator (precedence 0-2); "
                 "B: 0-2 prefix, 0-2 postfix and 0-2 infix operators with all precedences distinct (every bijection onto 0..k-1, every associativity); C: two prefix and/or two postfix operators with precedences 0-2 with repetition and 0-1 infix; "
-                "D: the tables of A-C with at most four operators again, with one grammar rule name shared between the prefix and the infix table, the prefix and the postfix table, or both - x every well-formed stream "
+                "E: the tables with at most two operators again with a node tag on every pair; D: the tables of A-C with at most four operators again, with one grammar rule name shared between the prefix and the infix table, the prefix and the postfix table, or both - x every well-formed stream "
                 "(prefix* primary postfix*)(infix prefix* primary postfix*)* of at most N tokens built from hand-made Pair objects; the tree built by a PrattParser subclass with tuple-building hooks is compared with "
                 "(1) an independent transcription of pest's nud/led/lbp binding-power algorithm and the whole stream must be consumed; (2) where all precedences are distinct and no weak prefix follows a stronger infix, "
                 "the unique tree satisfying the statement's local constraints (found by brute force over all trees) - oracle (1) and (2) are also compared with each other (self-check). non-trivial = streams of >= 3 tokens",
